@@ -173,6 +173,10 @@ def run(ctx):
                     jobs.append((desc, lines, seqs[k], k, "EIO"))
                     if desc["size"] == "V":
                         jobs.append((desc, lines, seqs[k], k, "EINVAL"))      # "not supported here" is a failure too
+                elif t[0] in ("futimens", "chmod") and desc["size"] == "V":
+                    # the preparation of the value file (re-stamp, chmod read-only) fails once: if the
+                    # call still succeeds, what is visible was made read-only (and flushed) first
+                    jobs.append((desc, lines, seqs[k], k, "EIO"))
                 elif t[0] in ("rename", "link") and desc["size"] == "V":
                     # the value lives on another filesystem: whatever the library does about it
                     # (today: create the directory and retry), what becomes visible must have been flushed
@@ -203,7 +207,7 @@ def run(ctx):
         if k not in seen:
             seen.add(k); uniq.append(v)
     cov = {"evaluations": len(res) + len(fres), "distinct_nontrivial": nontriv,
-           "rule": "publishing paths {set, put, set_temp_file, put_temp_file, ensure, get_or_update Replace / Promote} x {plain, sharded} x {miss, hit, secondary hit to promote, over capacity with maintenance, key present but evicted by the maintenance of this very write} x value sizes {1 B, empty, 4097 B in 3 chunks, 300 kB in 5 chunks} x auto_sync {on, off}, complete call trace of the operation, plus every flush failing in turn (EIO, and EINVAL as a filesystem without the operation would answer) and every publishing rename / link answering EXDEV once (value on another filesystem): a per-inode monitor (descriptor and name tracking through rename/link) requires a successful flush after the last write and before the publishing rename/link, no write bit at publication, no write/truncate/chmod/fchmod of an inode once visible, no publication after a failed flush; model/implementation trace agreement. Non-trivial = a publication or a failed flush occurs.",
+           "rule": "publishing paths {set, put, set_temp_file, put_temp_file, ensure, get_or_update Replace / Promote} x {plain, sharded} x {miss, hit, secondary hit to promote, over capacity with maintenance, key present but evicted by the maintenance of this very write} x value sizes {1 B, empty, 4097 B in 3 chunks, 300 kB in 5 chunks} x auto_sync {on, off}, complete call trace of the operation, plus every flush failing in turn (EIO, and EINVAL as a filesystem without the operation would answer) and every publishing rename / link answering EXDEV once (value on another filesystem) and every re-stamp / chmod of the value file failing once (EIO): a per-inode monitor (descriptor and name tracking through rename/link) requires a successful flush after the last write and before the publishing rename/link, no write bit at publication, no write/truncate/chmod/fchmod of an inode once visible, no publication after a failed flush; model/implementation trace agreement. Non-trivial = a publication or a failed flush occurs.",
            "samples": samples, "traces_validated_against_impl": agree, "failing_flush_runs": len(fres)}
     if not ctx.quick():
         rc, o = C.coqchk(PROPS)
